@@ -134,3 +134,21 @@ Definition wstate := nat -> lru.
 Definition wide_init (capacity n : Z) : wstate := fun _ => new_lru (shard_cap capacity n).
 Definition wide_step (v : variant) (route : Z -> nat) (sh : wstate) (o : wop) : wstate * gout :=
   sh_step Z lru wop gout wkey (fun s o => mstep v s (to_op o)) route sh o.
+
+(* ---------------- what the accessors return ---------------- *)
+Definition keys_of (c : lru) : list Z := map keyof (lst c).                       (* Keys() *)
+Definition items_of (c : lru) : list (Z * Z) := map fst (lst c).                  (* Items() *)
+Definition stats_of (c : lru) : Z * Z * Z * Z := (Z.of_nat (length (lst c)), size c, cap c, evs c).   (* Stats() *)
+(* the same for the ideal cache: entries most recently used first, Length, summed size, capacity, evictions *)
+Definition ilist (s : istate) : list E := fst (fst s).
+Definition ikeys (s : istate) : list Z := map keyof (ilist s).
+Definition iitems (s : istate) : list (Z * Z) := map fst (ilist s).
+Definition istats (s : istate) : Z * Z * Z * Z :=
+  (Z.of_nat (length (ilist s)), total (ilist s), snd (fst s), snd s).
+
+(* ---------------- the ideal wide cache: one ideal LRU of capacity capacity/shards+1 per shard ---------------- *)
+Definition new_istate (cp : Z) : istate := ([], cp, 0).
+Definition iwstate := nat -> istate.
+Definition iwide_init (capacity n : Z) : iwstate := fun _ => new_istate (shard_cap capacity n).
+Definition iwide_step (v : variant) (route : Z -> nat) (ish : iwstate) (o : wop) : iwstate * res :=
+  sh_step Z istate wop res wkey (fun s o => istep s (norm v (to_op o))) route ish o.
